@@ -88,4 +88,33 @@ def loop : Nat → List Ev → List Ev
       | .payload _ => e :: loop 0 es
       | .end_ => loop 0 es
 
+/-! ### (iii) the recursion of `parse_comp` is bounded -/
+
+mutual
+/-- how deep components are nested below an item (a nested component counts one level) -/
+def nestI : Item → Nat
+  | .component _ items => nestL items + 1
+  | _ => 0
+def nestL : List Item → Nat
+  | [] => 0
+  | i :: is => max (nestI i) (nestL is)
+end
+
+mutual
+/-- `parse_comp` at nesting depth `depth`: a nested component is parsed recursively unless `depth >= limit` (then: `Err`);
+    the result is the greatest depth at which `parse_comp` ran (`none`: the error) -/
+def parseDepthI (limit depth : Nat) : Item → Option Nat
+  | .component _ items => if depth ≥ limit then none else parseDepthL limit (depth + 1) items
+  | _ => some depth
+def parseDepthL (limit depth : Nat) : List Item → Option Nat
+  | [] => some depth
+  | i :: is =>
+    match parseDepthI limit depth i with
+    | none => none
+    | some a =>
+      match parseDepthL limit depth is with
+      | none => none
+      | some b => some (max a b)
+end
+
 end Orca.Comp
